@@ -410,6 +410,10 @@ class StmtMixin:
         key = (env.qual, node.lineno)
         for (q, ordinal), spec in self.loop_specs.items():
             if q == env.qual:
+                if callable(ordinal):             # the loop is identified by what it iterates over / does, not by its position
+                    if ordinal(node):
+                        return spec
+                    continue
                 loops = self.loops_of(env.qual)
                 if ordinal < len(loops) and loops[ordinal] is node:
                     return spec
